@@ -433,9 +433,15 @@ Proof. intros H. now rewrite getl_setl_other. Qed.
 Lemma prop_futs fuel : forall s t, futs (propagate_task fuel s t) = futs s.
 Proof.
   induction fuel as [|fuel IH]; intros s t; cbn [propagate_task].
-  - destruct (negb (is_prio_task s t)); auto. destruct (task_is_runnable s t); auto.
+  - destruct (negb (is_prio_task s t)); auto.
+    set (s0 := if task_is_runnable s t then task_reschedule s t else s).
+    assert (E0 : futs s0 = futs s) by (unfold s0; destruct (task_is_runnable s t); auto).
+    clearbody s0. rewrite <- E0. clear E0 s. rename s0 into s.
     destruct (twaiting (gett s t)); auto.
-  - destruct (negb (is_prio_task s t)); auto. destruct (task_is_runnable s t); auto.
+  - destruct (negb (is_prio_task s t)); auto.
+    set (s0 := if task_is_runnable s t then task_reschedule s t else s).
+    assert (E0 : futs s0 = futs s) by (unfold s0; destruct (task_is_runnable s t); auto).
+    clearbody s0. rewrite <- E0. clear E0 s. rename s0 into s.
     destruct (twaiting (gett s t)) as [l|]; auto.
     set (s1 := match lowner (getl s l) with Some o => propagate_task fuel s o | None => s end).
     assert (E1 : futs s1 = futs s) by (unfold s1; destruct (lowner (getl s l)); auto).
@@ -456,10 +462,22 @@ Proof.
     intros l g. unfold objs. rewrite E. tauto. }
   induction fuel as [|fuel IH]; intros s t Q; cbn [propagate_task].
   - destruct (negb (is_prio_task s t)); [apply Triv; auto|].
-    destruct (task_is_runnable s t); [apply Triv; auto|].
+    set (s0 := if task_is_runnable s t then task_reschedule s t else s).
+    assert (P0 : QD s0 /\ forall l g, In g (objs s0 l) <-> In g (objs s l))
+      by (unfold s0; destruct (task_is_runnable s t); apply Triv; auto).
+    clearbody s0. destruct P0 as (Q0 & Ho0).
+    match goal with |- QD ?R /\ _ => cut (QD R /\ forall l g, In g (objs R l) <-> In g (objs s0 l)) end;
+      [intros [A B]; split; [exact A|intros l1 g; rewrite B; apply Ho0]|].
+    clear Ho0 Q s. rename s0 into s, Q0 into Q.
     destruct (twaiting (gett s t)); apply Triv; auto.
   - destruct (negb (is_prio_task s t)); [apply Triv; auto|].
-    destruct (task_is_runnable s t); [apply Triv; auto|].
+    set (s0 := if task_is_runnable s t then task_reschedule s t else s).
+    assert (P0 : QD s0 /\ forall l g, In g (objs s0 l) <-> In g (objs s l))
+      by (unfold s0; destruct (task_is_runnable s t); apply Triv; auto).
+    clearbody s0. destruct P0 as (Q0 & Ho0).
+    match goal with |- QD ?R /\ _ => cut (QD R /\ forall l g, In g (objs R l) <-> In g (objs s0 l)) end;
+      [intros [A B]; split; [exact A|intros l1 g; rewrite B; apply Ho0]|].
+    clear Ho0 Q s. rename s0 into s, Q0 into Q.
     destruct (twaiting (gett s t)) as [l|]; [|apply Triv; auto].
     set (s1 := match lowner (getl s l) with Some o => propagate_task fuel s o | None => s end).
     assert (P1 : QD s1 /\ forall l g, In g (objs s1 l) <-> In g (objs s l)).
@@ -487,9 +505,15 @@ Lemma prop_owner fuel : forall s t l0,
   lowner (getl (propagate_task fuel s t) l0) = lowner (getl s l0).
 Proof.
   induction fuel as [|fuel IH]; intros s t l0; cbn [propagate_task].
-  - destruct (negb (is_prio_task s t)); auto. destruct (task_is_runnable s t); auto.
+  - destruct (negb (is_prio_task s t)); auto.
+    set (s0 := if task_is_runnable s t then task_reschedule s t else s).
+    assert (E0 : lowner (getl s0 l0) = lowner (getl s l0)) by (unfold s0; destruct (task_is_runnable s t); auto).
+    clearbody s0. rewrite <- E0. clear E0 s. rename s0 into s.
     destruct (twaiting (gett s t)); auto.
-  - destruct (negb (is_prio_task s t)); auto. destruct (task_is_runnable s t); auto.
+  - destruct (negb (is_prio_task s t)); auto.
+    set (s0 := if task_is_runnable s t then task_reschedule s t else s).
+    assert (E0 : lowner (getl s0 l0) = lowner (getl s l0)) by (unfold s0; destruct (task_is_runnable s t); auto).
+    clearbody s0. rewrite <- E0. clear E0 s. rename s0 into s.
     destruct (twaiting (gett s t)) as [l|]; auto.
     set (s1 := match lowner (getl s l) with Some o => propagate_task fuel s o | None => s end).
     assert (E1 : lowner (getl s1 l0) = lowner (getl s l0)).
